@@ -12,6 +12,9 @@
    AsShipped_D2 = TRUE models upstream 2.11.4: shutdown() takes executor._lock and then the gate, submit() takes
    the gate and then executor._lock (ABBA deadlock: C11_ShutdownReturns / C04).  FALSE models the repaired code:
    shutdown() flips the gate first and only then takes executor._lock for the snapshot.
+   Bug = "snapshot_before_gate" (seeded change C10-r3m1): the snapshot is taken under executor._lock FIRST and the
+   gate is closed afterwards ("never hold our lock and the gate together"): a submit() that runs completely in
+   between returns a future the sweep does not cover.
 *)
 EXTENDS ShutdownObs
 
@@ -24,9 +27,10 @@ Sub(j) == <<"sub", j>>
 Env(j) == <<"env", j>>
 Threads == {SH, OBS} \cup UNION {{Sub(j), Env(j)} : j \in Jobs}
 
-VARIABLES cfgS, cfgD, pc, gate, lock, isdown, tracked, fst, edl, now, obs, viol, hist, actor
+VARIABLES cfgS, cfgD, pc, gate, lock, isdown, tracked, fst, edl, now, obs, viol, hist, actor,
+          stale      \* Bug = "snapshot_before_gate" only: the copy of the tracked set taken before the gate was closed
 cfg == <<cfgS, cfgD>>
-vars == <<cfgS, cfgD, pc, gate, lock, isdown, tracked, fst, edl, now, obs, viol, hist, actor>>
+vars == <<cfgS, cfgD, pc, gate, lock, isdown, tracked, fst, edl, now, obs, viol, hist, actor, stale>>
 
 RECURSIVE Feed(_, _, _)
 Feed(o, v, evs) ==
@@ -47,7 +51,7 @@ Init ==
   /\ gate = NoOne /\ lock = NoOne /\ isdown = FALSE /\ tracked = {}
   /\ fst = [j \in Jobs |-> "new"] /\ edl = [j \in Jobs |-> -1] /\ now = 0
   /\ obs = ObsNext(ObsInit, Ev("Cfg", "-", "main", 0, -1, -1, 1, 1, -1, "", <<>>))
-  /\ viol = "ok" /\ hist = <<>> /\ actor = <<"-", 0>>
+  /\ viol = "ok" /\ hist = <<>> /\ actor = <<"-", 0>> /\ stale = {}
 
 \* ------------------------------------------------------------------ submit()
 G_SSleep(j) == pc[Sub(j)] = "s_sleep" /\ now >= cfgS[j]
@@ -56,7 +60,7 @@ SSleep(j) ==
   /\ pc' = [pc EXCEPT ![Sub(j)] = "s_gate"]
   /\ Emit(<<E1("SubmitCall", "client", now, j)>>)
   /\ actor' = Sub(j)
-  /\ UNCHANGED <<cfg, gate, lock, isdown, tracked, fst, edl, now>>
+  /\ UNCHANGED <<stale, cfg, gate, lock, isdown, tracked, fst, edl, now>>
 
 G_SGate(j) == pc[Sub(j)] = "s_gate" /\ gate = NoOne
 SGate(j) ==    \* with ensure_alive(): raise if shut down, else go for executor._lock
@@ -66,7 +70,7 @@ SGate(j) ==    \* with ensure_alive(): raise if shut down, else go for executor.
             /\ Emit(<<ESA("SubmitRaise", "client", now, j, "RuntimeError", 1, -1)>>)
        ELSE /\ gate' = Sub(j) /\ pc' = [pc EXCEPT ![Sub(j)] = "s_lock"] /\ NoEmit
   /\ actor' = Sub(j)
-  /\ UNCHANGED <<cfg, lock, isdown, tracked, fst, edl, now>>
+  /\ UNCHANGED <<stale, cfg, lock, isdown, tracked, fst, edl, now>>
 
 G_SLock(j) == pc[Sub(j)] = "s_lock" /\ lock = NoOne
 SLock(j) ==    \* with self._lock: delegate.submit; _futures.add; add_done_callback(discard); return
@@ -78,7 +82,7 @@ SLock(j) ==    \* with self._lock: delegate.submit; _futures.add; add_done_callb
   /\ pc' = [pc EXCEPT ![Sub(j)] = "done", ![Env(j)] = "e_sleep"]
   /\ Emit(<<ES("DelegateSubmit", "client", now, j, "tap"), E1("SubmitRet", "client", now, j)>>)
   /\ actor' = Sub(j)
-  /\ UNCHANGED <<cfg, lock, isdown, now>>
+  /\ UNCHANGED <<stale, cfg, lock, isdown, now>>
 
 \* ------------------------------------------------------------------ the delegate's work
 G_EFinish(j) == pc[Env(j)] = "e_sleep" /\ now >= edl[j]
@@ -90,23 +94,23 @@ EFinish(j) ==
             /\ Emit(<<Ev("DelegateState", "-", "env", now, j, -1, -1, -1, 1, "FINISHED", <<>>)>>)
        ELSE /\ UNCHANGED <<fst, tracked>> /\ NoEmit
   /\ actor' = Env(j)
-  /\ UNCHANGED <<cfg, gate, lock, isdown, edl, now>>
+  /\ UNCHANGED <<stale, cfg, gate, lock, isdown, edl, now>>
 
 \* ------------------------------------------------------------------ shutdown()
-\* the sweep and what follows it, once the snapshot `snap` has been taken (no further visible operation)
+\* the sweep and what follows it, once the snapshot `stale` has been taken (no further visible operation)
 RECURSIVE SweepEvents(_, _, _)
-SweepEvents(snap, st, polled) ==   \* polled = FALSE: the cancel() calls; TRUE: the state changes seen after the step
-  IF snap = {} THEN <<>>
-  ELSE LET j == CHOOSE x \in snap : \A y \in snap : x <= y IN
+SweepEvents(snp, st, polled) ==   \* polled = FALSE: the cancel() calls; TRUE: the state changes seen after the step
+  IF snp = {} THEN <<>>
+  ELSE LET j == CHOOSE x \in snp : \A y \in snp : x <= y IN
          (IF ~polled THEN <<ES("CancelArrived", "shutdown", now, j, "tap")>>
           ELSE IF st[j] = "pending" THEN <<Ev("DelegateState", "-", "shutdown", now, j, -1, -1, -1, 1, "CANCELLED", <<>>)>>
           ELSE <<>>)
-         \o SweepEvents(snap \ {j}, st, polled)
-Finish(snap) ==
-  /\ fst' = [j \in Jobs |-> IF j \in snap /\ fst[j] = "pending" THEN "cancelled" ELSE fst[j]]
-  /\ tracked' = tracked \ {j \in snap : fst[j] = "pending"}
+         \o SweepEvents(snp \ {j}, st, polled)
+Finish(snp) ==
+  /\ fst' = [j \in Jobs |-> IF j \in snp /\ fst[j] = "pending" THEN "cancelled" ELSE fst[j]]
+  /\ tracked' = tracked \ {j \in snp : fst[j] = "pending"}
   /\ pc' = [pc EXCEPT ![SH] = "done"]
-  /\ LET sw == IF Bug = "skip_one" /\ snap # {} THEN snap \ {CHOOSE x \in snap : TRUE} ELSE snap IN
+  /\ LET sw == IF Bug = "skip_one" /\ snp # {} THEN snp \ {CHOOSE x \in snp : TRUE} ELSE snp IN
        Emit(SweepEvents(sw, fst, FALSE) \o
             <<Ev("DelegateShutdown", "-", "shutdown", now, -1, -1, 1, 0, 0, "tap", <<>>), ES("ShutdownRet", "shutdown", now, -1, "top")>>
             \o SweepEvents(sw, fst, TRUE))
@@ -114,17 +118,24 @@ Finish(snap) ==
 G_ShSleep == pc[SH] = "sh_sleep" /\ now >= ShutdownAt
 ShSleep ==     \* shutdown() is called; first visible op: executor._lock (as shipped) / the gate (repaired)
   /\ G_ShSleep
-  /\ pc' = [pc EXCEPT ![SH] = IF AsShipped_D2 THEN "sh_lock1" ELSE "sh_gate"]
+  /\ pc' = [pc EXCEPT ![SH] = IF AsShipped_D2 THEN "sh_lock1" ELSE IF Bug = "snapshot_before_gate" THEN "sh_snap" ELSE "sh_gate"]
   /\ Emit(<<Ev("ShutdownCall", "-", "shutdown", now, -1, -1, 1, 0, 0, "top", <<>>)>>)
   /\ actor' = SH
-  /\ UNCHANGED <<cfg, gate, lock, isdown, tracked, fst, edl, now>>
+  /\ UNCHANGED <<stale, cfg, gate, lock, isdown, tracked, fst, edl, now>>
 
 G_ShLock1 == pc[SH] = "sh_lock1" /\ lock = NoOne
 ShLock1 ==     \* (as shipped) with self._lock: ... self._shutdown() wants the gate
   /\ G_ShLock1
   /\ lock' = SH /\ pc' = [pc EXCEPT ![SH] = "sh_gate"]
   /\ actor' = SH /\ NoEmit
-  /\ UNCHANGED <<cfg, gate, isdown, tracked, fst, edl, now>>
+  /\ UNCHANGED <<stale, cfg, gate, isdown, tracked, fst, edl, now>>
+
+G_ShSnap == pc[SH] = "sh_snap" /\ lock = NoOne
+ShSnap ==      \* (model bug) with self._lock: futures = self._futures.copy()  - before the gate is closed
+  /\ G_ShSnap
+  /\ stale' = tracked /\ pc' = [pc EXCEPT ![SH] = "sh_gate"]
+  /\ actor' = SH /\ NoEmit
+  /\ UNCHANGED <<cfg, gate, lock, isdown, tracked, fst, edl, now>>
 
 G_ShGate == pc[SH] = "sh_gate" /\ gate = NoOne
 ShGate ==      \* the gate: set is_shutdown
@@ -132,16 +143,18 @@ ShGate ==      \* the gate: set is_shutdown
   /\ isdown' = TRUE
   /\ IF AsShipped_D2
        THEN /\ lock' = NoOne /\ Finish(tracked)            \* snapshot under the lock already held, then sweep
+       ELSE IF Bug = "snapshot_before_gate"
+       THEN /\ Finish(stale) /\ UNCHANGED lock               \* the stale snapshot is swept
        ELSE /\ pc' = [pc EXCEPT ![SH] = "sh_lock2"] /\ NoEmit /\ UNCHANGED <<lock, fst, tracked>>
   /\ actor' = SH
-  /\ UNCHANGED <<cfg, gate, edl, now>>
+  /\ UNCHANGED <<stale, cfg, gate, edl, now>>
 
 G_ShLock2 == pc[SH] = "sh_lock2" /\ lock = NoOne
 ShLock2 ==     \* (repaired) with self._lock: snapshot; then sweep, delegate.shutdown
   /\ G_ShLock2
   /\ Finish(tracked)
   /\ actor' = SH
-  /\ UNCHANGED <<cfg, gate, lock, isdown, edl, now>>
+  /\ UNCHANGED <<stale, cfg, gate, lock, isdown, edl, now>>
 
 G_OEnd == pc[OBS] = "o_sleep" /\ now >= Horizon
 OEnd ==
@@ -149,11 +162,11 @@ OEnd ==
   /\ pc' = [pc EXCEPT ![OBS] = "done"]
   /\ Emit(<<E0("End", "main", now)>>)
   /\ actor' = OBS
-  /\ UNCHANGED <<cfg, gate, lock, isdown, tracked, fst, edl, now>>
+  /\ UNCHANGED <<stale, cfg, gate, lock, isdown, tracked, fst, edl, now>>
 
 AnyEnabled ==
   \/ \E j \in Jobs : G_SSleep(j) \/ G_SGate(j) \/ G_SLock(j) \/ G_EFinish(j)
-  \/ G_ShSleep \/ G_ShLock1 \/ G_ShGate \/ G_ShLock2 \/ G_OEnd
+  \/ G_ShSleep \/ G_ShLock1 \/ G_ShSnap \/ G_ShGate \/ G_ShLock2 \/ G_OEnd
 Deadlines ==
   {cfgS[j] : j \in {x \in Jobs : pc[Sub(x)] = "s_sleep"}}
   \cup {edl[j] : j \in {x \in Jobs : pc[Env(x)] = "e_sleep"}}
@@ -163,15 +176,15 @@ Tick ==
   /\ ~AnyEnabled /\ Deadlines # {}
   /\ now' = CHOOSE d \in Deadlines : \A x \in Deadlines : d <= x
   /\ actor' = <<"tick", 0>>
-  /\ UNCHANGED <<cfg, pc, gate, lock, isdown, tracked, fst, edl, obs, viol, hist>>
+  /\ UNCHANGED <<stale, cfg, pc, gate, lock, isdown, tracked, fst, edl, obs, viol, hist>>
 
 Next ==
   \/ \E j \in Jobs : SSleep(j) \/ SGate(j) \/ SLock(j) \/ EFinish(j)
-  \/ ShSleep \/ ShLock1 \/ ShGate \/ ShLock2 \/ OEnd \/ Tick
+  \/ ShSleep \/ ShLock1 \/ ShSnap \/ ShGate \/ ShLock2 \/ OEnd \/ Tick
 Spec == Init /\ [][Next]_vars
 
 ContractHolds == viol = "ok"
 \* the lock-order cycle itself, as a state: submit holds the gate and wants the lock, shutdown the reverse
 NoABBA == ~(\E j \in Jobs : pc[Sub(j)] = "s_lock" /\ pc[SH] = "sh_gate" /\ lock = SH)
-View == <<cfg, pc, gate, lock, isdown, tracked, fst, edl, now, obs, viol>>
+View == <<cfg, pc, gate, lock, isdown, tracked, fst, edl, now, obs, viol, stale>>
 =============================================================================
